@@ -103,7 +103,7 @@ def prop(case):
             tol = 1e3 * eps * (sv.max() / sv.min()) ** 2 + 1e-10
             check(e <= tol, "stats.covariance_inverse", lambda: f"|cov J^T J - I| = {e:.2e} > {tol:.2e}")
             tags.append("full_rank_jacobian")
-        elif sv.size and (sv ** 2 < eps * 1e-3).any() and all((s ** 2 > 1e3 * eps) or (s ** 2 < 1e-3 * eps) for s in sv) and sv.max() / sv[sv ** 2 > 1e3 * eps].min() < 1e6:
+        elif sv.size and (sv ** 2 < eps * 1e-3).any() and (sv ** 2 > 1e3 * eps).any() and all((s ** 2 > 1e3 * eps) or (s ** 2 < 1e-3 * eps) for s in sv) and sv.max() / sv[sv ** 2 > 1e3 * eps].min() < 1e6:
             # clearly rank deficient: Penrose conditions
             an = max(np.abs(A).max(), 1e-300)
             e1 = np.abs(A @ cov @ A - A).max() / an
